@@ -235,6 +235,19 @@ func rebalancerAdjusting() *sched.Instance {
 	return inst
 }
 
+// yieldingLogger is user code inside the middleware: it takes its time (a scheduling point) and then really
+// formats its arguments - the middleware itself among them, through its String() method.
+type yieldingLogger struct{}
+
+func (yieldingLogger) log(msg string, a ...any) {
+	vrt.Yield()
+	_ = fmt.Sprintf(msg, a...)
+}
+func (l yieldingLogger) Debug(msg string, a ...any) { l.log(msg, a...) }
+func (l yieldingLogger) Info(msg string, a ...any)  { l.log(msg, a...) }
+func (l yieldingLogger) Warn(msg string, a ...any)  { l.log(msg, a...) }
+func (l yieldingLogger) Error(msg string, a ...any) { l.log(msg, a...) }
+
 type effect struct{ c *counter }
 
 func (e effect) Exec() error { e.c.inc(1); return nil }
@@ -246,7 +259,7 @@ func breaker() *sched.Instance {
 		vrt.Yield()
 		w.WriteHeader(502)
 	})
-	cb, err := cbreaker.New(h, "NetworkErrorRatio() > 0.5 || ResponseCodeRatio(500, 600, 0, 600) > 0.9 || LatencyAtQuantileMS(50.0) > 100", cbreaker.OnTripped(effect{c}))
+	cb, err := cbreaker.New(h, "NetworkErrorRatio() > 0.5 || ResponseCodeRatio(500, 600, 0, 600) > 0.9 || LatencyAtQuantileMS(50.0) > 100", cbreaker.OnTripped(effect{c}), cbreaker.Logger(yieldingLogger{})) // a logger that really formats its arguments (the breaker itself among them)
 	if err != nil {
 		panic(err)
 	}
@@ -271,7 +284,7 @@ func breakerRecovering() *sched.Instance {
 		vrt.Yield()
 		w.WriteHeader(code)
 	})
-	cb, err := cbreaker.New(h, "NetworkErrorRatio() > 0.5", cbreaker.FallbackDuration(2*time.Second), cbreaker.RecoveryDuration(10*time.Second))
+	cb, err := cbreaker.New(h, "NetworkErrorRatio() > 0.5", cbreaker.FallbackDuration(2*time.Second), cbreaker.RecoveryDuration(10*time.Second), cbreaker.Logger(yieldingLogger{}))
 	if err != nil {
 		panic(err)
 	}
@@ -285,8 +298,11 @@ func breakerRecovering() *sched.Instance {
 	prepared := strings.Contains(cb.String(), "recovering") && first == 503
 	before := c.get(0)
 	var codes [4]int
-	inst := &sched.Instance{Names: []string{"req1", "req2", "req3"}}
-	inst.Bodies = []func(){func() { codes[0] = serve(cb) }, func() { codes[1] = serve(cb) }, func() { codes[2] = serve(cb); codes[3] = serve(cb) }}
+	// ... and the clock moves past the end of the recovery period while they are in flight: one of them performs the
+	// transition back to standby while others are still deciding (or logging)
+	inst := &sched.Instance{Names: []string{"req1", "req2", "req3", "clock"}}
+	inst.Bodies = []func(){func() { codes[0] = serve(cb) }, func() { codes[1] = serve(cb) }, func() { codes[2] = serve(cb); codes[3] = serve(cb) },
+		func() { vrt.Yield(); clock.VerifAdvance(6 * time.Second) }}
 	inst.Check = func(*vrt.Exec) []vrt.Failure {
 		if !prepared {
 			return []vrt.Failure{fail("harness:breaker-not-recovering", "the prepared breaker is %s (first request of the recovery got %d)", cb.String(), first)}
@@ -304,7 +320,7 @@ func breakerRecovering() *sched.Instance {
 		}
 		// the ramp's own bookkeeping must account for every decision: the request that began recovery + these four
 		a, d := lib.Field(cb, "rc", "allowed"), lib.Field(cb, "rc", "denied")
-		{
+		if strings.Contains(cb.String(), "recovering") { // (once the breaker is back in standby the ramp is gone)
 			if a.IsValid() && d.IsValid() && a.Int()+d.Int() != 5 {
 				return []vrt.Failure{fail("lost-update:breaker-ramp-bookkeeping", "5 admission decisions since recovery began, the ramp counted allowed=%d denied=%d", a.Int(), d.Int())}
 			}
